@@ -6,6 +6,8 @@ def plan(tier, seed):
     gs = helper_groups(tier) + afb1d_groups()
     for w, nf in (('prep_filt_afb1d', 2), ('prep_filt_afb2d', 2), ('prep_filt_afb2d', 4)):
         gs.append(Group('%s[%d]' % (w, nf), G.g_prep, (w, nf), functions=[(LL, w)]))
+        gs.append(Group('%s[%d,(L,1) column arrays]' % (w, nf), G.g_prep, (w, nf, 'col'), functions=[(LL, w)],
+                        replay=rp('dwt_forward' if 'afb' in w else 'dwt_inverse', dim=2, mode='zero', waveform='tuple4col')))
     gs.append(Group('mode-tables', G.g_mode_tables, functions=[(LL, 'mode_to_int'), (LL, 'int_to_mode')]))
     for m in MODES:
         gs.append(Group('AFB1D.forward[%s]' % m, G.g_AFB1D_fwd, (m,), functions=[(LL, 'AFB1D.forward')],
